@@ -108,7 +108,7 @@ func ParseContractFile(path, pkgPath string) ([]*Block, error) {
 		if ct == "" {
 			continue
 		}
-		if strings.HasPrefix(ct, "--") { // comment inside contracts
+		if strings.HasPrefix(ct, "--") || strings.HasPrefix(ct, "import ") || strings.HasPrefix(ct, "heap ") { // comments and directives
 			continue
 		}
 		if kw := startsWithKW(ct, blockKW); kw != "" && !strings.HasPrefix(c, " ") && !strings.HasPrefix(c, "\t") {
@@ -523,6 +523,9 @@ func existsRange[T specInteger](lo, hi T, f func(T) bool) bool {
 }
 
 func old[T any](x T) T { return x }
+
+// allocated(p): p is a non-nil reference to an object allocated before (heap classes only).
+func allocated[T any](p *T) bool { return p != nil }
 
 // unfold(f(args)) is f(args); the verifier additionally learns f's defining equation at args.
 func unfold[T any](x T) T { return x }
